@@ -15,13 +15,14 @@ vars == <<l, st, src>>
 
 Ordered(cfg) == cfg.sorted \/ cfg.linked
 
-\* value found for key k in the Get table of observation o (probes are <<key, value, found>>)
-Looked(o, k) == LET h == {i \in DOMAIN o.get : o.get[i][1] = k} IN
-                IF h = {} THEN <<0, FALSE>> ELSE LET i == CHOOSE i \in h : TRUE IN <<o.get[i][2], o.get[i][3]>>
-\* entries of an observation: Keys() in their order, each with the value Get() reports for it
-EntRaw(o) == TLCEval([i \in DOMAIN o.keys |-> <<o.keys[i], Looked(o, o.keys[i])[1]>>])
+\* entries of an observation: Keys() in their order, each with the value Get() reports for it (o.ent[i] = <<key, value, found>>)
+EntRaw(o) == TLCEval([i \in DOMAIN o.ent |-> <<o.ent[i][1], o.ent[i][2]>>])
+\* hash kinds enumerate in an unspecified order: their entries are put in key order.  SetToSeq lists a set of
+\* <<key, value>> pairs in TLC's own element order, which is by key; should it ever not be, sort.
+ByKey(q) == \A i \in 1..Len(q)-1 : q[i][1] <= q[i+1][1]
 Ent(cfg, o) == IF Ordered(cfg) THEN EntRaw(o)
-               ELSE SortSeq(EntRaw(o), LAMBDA a, b : a[1] < b[1])
+               ELSE LET q == SetToSeq(AsSet(EntRaw(o))) IN
+                    IF ByKey(q) THEN q ELSE SortSeq(q, LAMBDA a, b : a[1] < b[1])
 
 \* Keys (and, in a TreeBidiMap, values) that the comparator cannot tell apart are ONE key / value: which
 \* representative a lookup hands back is free (the two trees of a TreeBidiMap may each keep their own)
@@ -37,6 +38,8 @@ ObsWF(cfg, o) ==
   LET s == Ent(cfg, o) IN
   /\ o.size = Len(o.keys)
   /\ Len(o.vals) = Len(o.keys)
+  /\ Len(o.ent) = Len(o.keys) /\ Len(s) = Len(o.keys)
+  /\ \A i \in DOMAIN o.ent : o.ent[i][1] = o.keys[i] /\ o.ent[i][3] = TRUE     \* Get finds every key that Keys() lists
   /\ OneKeyEach(cfg, s)                                            \* every live key exactly once
   /\ IF cfg.aligned THEN o.vals = Vals(s) ELSE ValsBagOK(cfg, o.vals, s)
   /\ \A i \in DOMAIN o.get : <<o.get[i][2], o.get[i][3]>> = GetRet(cfg, s, o.get[i][1], cfg.zero)
@@ -61,14 +64,22 @@ TransOK(cfg, s, e, t) ==
     [] e.op = "Clear"  -> t = <<>>
     [] OTHER           -> t = s
 
-\* ---- C12 on a load inside a map history (input: distinct keys and values, <<k1, v1, k2, v2, ...>>) ----
+\* ---- C12 on a load inside a map history (input <<k1, v1, k2, v2, ...>>: member names all different, values all different) ----
+\* Names that the comparator cannot tell apart denote ONE key: which of them stays as the key object, and which of their
+\* values survives, depends on the order in which the loader meets them (a Go map, for most kinds) and is free.
 LoadPairs(vs) == [i \in 1..(Len(vs) \div 2) |-> <<vs[2 * i - 1], vs[2 * i]>>]
 C12(pre, e) == e.op = "FromJSON" =>
   /\ Completed(e)
-  /\ LET cfg == e.cfg  t == Ent(cfg, e.post)  in == LoadPairs(e.a.vs) IN
+  /\ LET cfg == e.cfg  t == Ent(cfg, e.post)  in == LoadPairs(e.a.vs)
+         namesIn == {K(in[j]) : j \in DOMAIN in}
+         keysIn  == {KKey(cfg, K(in[j])) : j \in DOMAIN in}
+         kvIn    == {<<KKey(cfg, K(in[j])), V(in[j])>> : j \in DOMAIN in} IN
        IF ~e.r[1] THEN t = Ent(cfg, pre)
-       ELSE /\ AsSet(t) = AsSet(in) /\ Len(t) = Len(in)
-            /\ (cfg.linked => t = in)                               \* textual order
+       ELSE /\ OneKeyEach(cfg, t)
+            /\ {KKey(cfg, K(t[i])) : i \in DOMAIN t} = keysIn                       \* every key of the input, nothing else
+            /\ \A i \in DOMAIN t : K(t[i]) \in namesIn /\ <<KKey(cfg, K(t[i])), V(t[i])>> \in kvIn
+            /\ (Cardinality(keysIn) = Len(in) => AsSet(t) = AsSet(in))              \* no two names are one key: exactly the pairs
+            /\ (cfg.linked => t = in)                                               \* textual order
             /\ SortedOK(cfg, t)
   /\ ObsWF(e.cfg, e.post)
 
@@ -125,9 +136,9 @@ C09(pre, e) ==
     LET cfg == e.cfg  o == e.post  s == EntRaw(pre)  t == EntRaw(o) IN
     /\ Completed(e)
     /\ TransOK(cfg, s, e, t)                 \* a present key never moves, a new key goes last, Remove keeps the rest
-    /\ o.iter = t /\ o.each = t              \* iterator and Each follow Keys()
-    /\ o.vals = Vals(t)
-    /\ o.jkeys = Keys(t)                     \* textual order of ToJSON
+    /\ (o.hasiter => o.iter = t) /\ (o.haseach => o.each = t)   \* iterator and Each follow Keys() (taken in every observation
+    /\ o.vals = Vals(t)                                          \*  but those of the scale scripts, which list Keys / Values only)
+    /\ (o.hasj => o.jkeys = Keys(t))                             \* textual order of ToJSON
 
 \* ---- C10: bidirectional maps are one-to-one ----------------------------------------------------
 C10(pre, e) ==
